@@ -145,7 +145,27 @@ func writeConfigDir(text string) (string, error) {
 		if err := os.MkdirAll(filepath.Join(dir, "servitor"), 0o755); err != nil {
 			return "", err
 		}
+		text = strings.ReplaceAll(text, "@@DIR@@", dir)
 		if err := os.WriteFile(filepath.Join(dir, "servitor", "config.toml"), []byte(text), 0o644); err != nil {
+			return "", err
+		}
+	}
+	// A decoy where XDG_CONFIG_HOME does not point: $HOME/.config/servitor/config.toml holds
+	// something that is no configuration at all. With XDG_CONFIG_HOME set it is nobody's business.
+	decoy := filepath.Join(dir, "home", ".config", "servitor")
+	if err := os.MkdirAll(decoy, 0o755); err != nil {
+		return "", err
+	}
+	if err := os.WriteFile(filepath.Join(decoy, "config.toml"), []byte("[network\ntimeout_seconds = = 1\nthis is not a configuration\n"), 0o644); err != nil {
+		return "", err
+	}
+	// small local files that a feed entry may name (local paths are legal feed entries)
+	files := filepath.Join(dir, "files")
+	if err := os.MkdirAll(files, 0o755); err != nil {
+		return "", err
+	}
+	for name, content := range map[string]string{"empty": "", "bom1": "\xef", "bom2": "\xef\xbb", "bom3": "\xef\xbb\xbf", "one": "{", "actor.json": `{"id":"https://h1.example/a/u1","type":"Person","name":"saved"}`, "text": "not json at all\n"} {
+		if err := os.WriteFile(filepath.Join(files, name), []byte(content), 0o644); err != nil {
 			return "", err
 		}
 	}
@@ -158,7 +178,7 @@ func startWorker(bin string, cfgText string, race bool) (*worker, error) {
 		return nil, infra("config dir: %v", err)
 	}
 	cmd := exec.Command(bin, "-test.run", "^TestWorker$", "-test.timeout", "0", "-test.count", "1")
-	cmd.Env = append(os.Environ(), "XDG_CONFIG_HOME="+dir, "HOME="+dir, "GOTRACEBACK=all", "VERIF_FD_CAPTURE="+filepath.Join(dir, "fd.out"))
+	cmd.Env = append(os.Environ(), "XDG_CONFIG_HOME="+dir, "HOME="+filepath.Join(dir, "home"), "GOTRACEBACK=all", "VERIF_FD_CAPTURE="+filepath.Join(dir, "fd.out"))
 	if race {
 		cmd.Env = append(cmd.Env, "GORACE=halt_on_error=1 exitcode=66")
 	}
